@@ -283,11 +283,95 @@ def _only_combined_with_unsendable(inp, cont, name, v) -> bool:
     return bool(carrying) and all(any(val in bad for val in (c.headers or {}).values()) for c in carrying)
 
 
+# ---- values that are easy to lose: equal in Python but different on the wire, and falsy payloads -----------------
+
+PARAM_VARIANTS = {
+    "none": (None, []),
+    "int-vs-bool": ({"name": "flag", "in": "query", "schema": {"anyOf": [{"type": "integer", "example": 1}, {"type": "boolean", "example": True}]}}, ["1", "true"]),
+    "zero-vs-false": ({"name": "flag", "in": "query", "examples": {"a": {"value": 0}, "b": {"value": False}}, "schema": {}}, ["0", "false"]),
+    "int-vs-float": ({"name": "flag", "in": "query", "examples": {"a": {"value": 1}, "b": {"value": 1.0}}, "schema": {"type": "number"}}, ["1", "1.0"]),
+    "falsy-query": ({"name": "flag", "in": "query", "examples": {"a": {"value": 0}, "b": {"value": ""}}, "schema": {}}, ["0", ""]),
+}
+OBJ = {"type": "object", "properties": {"count": {}, "name": {"type": "string"}}, "required": ["count", "name"]}
+BODY_VARIANTS = {
+    "none": (None, []),
+    "zero-vs-false": ({"application/json": {"schema": {"type": "object"}, "examples": {"a": {"value": {"count": 0}}, "b": {"value": {"count": False}}}}}, [("application/json", {"count": 0}), ("application/json", {"count": False})]),
+    "one-vs-true": ({"application/json": {"schema": {}, "examples": {"a": {"value": 1}, "b": {"value": True}}}}, [("application/json", 1), ("application/json", True)]),
+    "null": ({"application/json": {"schema": dict(OBJ, nullable=True), "example": None}}, [("application/json", None)]),
+    "zero": ({"application/json": {"schema": {"oneOf": [OBJ, {"type": "integer"}]}, "example": 0}}, [("application/json", 0)]),
+    "false": ({"application/json": {"schema": {"oneOf": [OBJ, {"type": "boolean"}]}, "example": False}}, [("application/json", False)]),
+    "empty-object": ({"application/json": {"schema": {"type": "object", "properties": {"name": {"type": "string", "minLength": 3}}}, "example": {}}}, [("application/json", {})]),
+    "empty-array": ({"application/json": {"schema": {"oneOf": [OBJ, {"type": "array"}]}, "example": []}}, [("application/json", [])]),
+    "empty-text": ({"application/json": {"schema": OBJ}, "text/plain": {"schema": {"type": "string"}, "example": ""}}, [("text/plain", "")]),
+}
+
+
+@st.composite
+def special_case(draw):
+    pv = draw(st.sampled_from(sorted(PARAM_VARIANTS)))
+    bv = draw(st.sampled_from(sorted(BODY_VARIANTS)))
+    if pv == "none" and bv == "none":
+        bv = "null"
+    return {"param": pv, "body": bv, "other_param_example": draw(st.booleans()), "workers": draw(st.sampled_from([1, 2]))}
+
+
+def _strict_equal(a, b) -> bool:
+    if type(a) is not type(b):
+        return False
+    if isinstance(a, dict):
+        return a.keys() == b.keys() and all(_strict_equal(a[k], b[k]) for k in a)
+    if isinstance(a, list):
+        return len(a) == len(b) and all(_strict_equal(x, y) for x, y in zip(a, b))
+    return a == b
+
+
+def check_special(ctx: Ctx, inp) -> None:
+    from vfw.harness import engine_run, loopback
+
+    param, wire_values = PARAM_VARIANTS[inp["param"]]
+    content, bodies = BODY_VARIANTS[inp["body"]]
+    op: dict = {"parameters": [], "responses": {"200": {"description": "ok"}}}
+    if param is not None:
+        op["parameters"].append(copy.deepcopy(param))
+    if inp["other_param_example"]:
+        op["parameters"].append({"name": "other", "in": "query", "schema": {"type": "string"}, "example": "kept"})
+    if content is not None:
+        op["requestBody"] = {"required": True, "content": copy.deepcopy(content)}
+    doc = {"openapi": "3.0.2", "info": {"title": "t", "version": "1"}, "paths": {"/t": {"post": op}}}
+    server = loopback.shared()
+    record = engine_run.run_engine(doc, {"phases": ["examples"], "seed": 1, "checks": [], "max_examples": 5, "workers": inp["workers"]}, server)
+    ctx.case(nontrivial=inp, classes=[f"param={inp['param']}", f"body={inp['body']}"], sample={"input": inp, "requests": [r.as_json() for r in record.requests[:4]]})
+    if record.exception:
+        ctx.disagree("special:engine-exception:" + record.exception.split(":")[0], f"engine run raised {record.exception}", input=inp)
+        return
+    got_flags, got_bodies = [], []
+    for r in record.requests:
+        u = urlsplit(r.target)
+        got_flags += [v for k, v in parse_qsl(u.query, keep_blank_values=True) if k == "flag"]
+        ct = (r.header("Content-Type") or "").split(";")[0]
+        if ct == "application/json":
+            try:
+                got_bodies.append((ct, json.loads(r.body)))
+            except Exception:  # noqa: BLE001
+                got_bodies.append((ct, r.body.decode("latin-1")))
+        elif ct:
+            got_bodies.append((ct, r.body.decode("utf-8", "replace")))
+        elif not r.body:
+            got_bodies.append(("", None))
+    for v in wire_values:
+        if v not in got_flags:
+            ctx.disagree(f"special:parameter-example-not-received:{inp['param']}", f"query example {v!r} was never received (received flag values: {got_flags})", input=inp)
+    for mt, v in bodies:
+        if not any(m == mt and _strict_equal(b, v) for m, b in got_bodies):
+            ctx.disagree(f"special:body-example-not-received:{inp['body']}", f"body example {v!r} ({mt}) was never received verbatim (received: {got_bodies[:6]})", input=inp)
+
+
 SUBS = [
+    Sub("special_values", collect=True, fn=check_special, strategy=special_case, quick=(8, 12), thorough=(16, 60), shrink_quick=False, timeout_quick=600, timeout_thorough=3400),
     Sub("strategies", fn=check_strategies, strategy=document, quick=(16, 120), thorough=(16, 4000), timeout_quick=600, timeout_thorough=3400),
     Sub("engine", collect=True, fn=check_engine, strategy=document, quick=(16, 25), thorough=(16, 800), shrink_quick=False, timeout_quick=600, timeout_thorough=3400),
 ]
-FLOOR = {"strategies": 1500, "engine": 200}
+FLOOR = {"strategies": 1500, "engine": 200, "special_values": 60}
 
 MANIFEST = {
     "category": "exploration",
